@@ -529,6 +529,31 @@ fn check_compressor(ctx: &mut Ctx, idx: u64, r: &mut Rng) -> Option<(String, J)>
 			}
 		}
 	}
+	// (c) attack / release shorter than one sample period (0 or a microsecond): the attenuation follows the level at once
+	if r.chance(0.4) && want_ss.abs() > 0.5 {
+		let tiny = *r.pick(&[0.0f64, 1e-6, 2e-6]);
+		let spec0 = FxSpec::Compressor { threshold, ratio, attack_s: tiny, release_s: tiny, makeup_db: makeup, mix: 1.0 };
+		let mut x0 = vec![Frame::from_mono(tail as f32); 300];
+		x0.extend(vec![Frame::from_mono(level as f32); 300]);
+		x0.extend(vec![Frame::from_mono(tail as f32); 300]);
+		let y0 = run_effect(&spec0, sr, 128, &x0, &[128]);
+		let gr0 = |i: usize| db((y0[i].left as f64 / mk) / x0[i].left as f64);
+		ctx.count("compressor_instant_time_constant_checks", 1);
+		// one-pole envelope with coefficient c = exp(-dt / time constant) (0 for a zero time constant): after m frames the
+		// attenuation has covered 1 - c^m of the way; the second loud / quiet frame is m = 1 or 2 depending on where the
+		// detector sits in the frame, both are accepted
+		let tq = std::time::Duration::from_secs_f64(tiny).as_secs_f64();
+		let c = if tq > 0.0 { (-1.0 / (tq * sr as f64)).exp() } else { 0.0 };
+		let (lo_f, hi_f) = (1.0 - c, 1.0 - c * c);
+		let first_loud = gr0(301);
+		if first_loud < want_ss - 0.1 || first_loud > want_ss * lo_f + 0.1 {
+			return Some((format!("compressor with attack {} s at {} Hz: two frames after the level rose the gain reduction is {:.3} dB, the configured time constant gives between {:.3} and {:.3} dB (steady state {:.3} dB)", tiny, sr, first_loud, want_ss * lo_f, want_ss * hi_f, want_ss), detail(&spec0, sr, "attack shorter than a sample period")));
+		}
+		let first_quiet = gr0(601);
+		if first_quiet < want_ss * c - 0.1 || first_quiet > 0.1 {
+			return Some((format!("compressor with release {} s at {} Hz: two frames after the level dropped below the threshold the gain reduction is still {:.3} dB, the configured time constant leaves at most {:.3} dB", tiny, sr, first_quiet, want_ss * c), detail(&spec0, sr, "release shorter than a sample period")));
+		}
+	}
 	if ctx.want_sample() && idx % 7 == 4 {
 		ctx.sample(detail(&spec, sr, "compressor: below-threshold identity, steady-state reduction, attack/release time constants"));
 	}
